@@ -340,7 +340,13 @@ def r5_encoder(ck, repo, nf):
         t0 = tot.elems[0]
         ok = len(t0.terms) == 3 and all(w in t0.canon() for w in ("dynamics_weight", "reward_weight", "done_weight")) and all(c == 1 for c in t0.terms.values())
         ck.ob("R5-post-terminal-mask", q, "weighted-sum", ok, f"total = {t0.canon()[:150]}", "" if ok else "total loss must be w_dyn*sum(dyn) + w_rew*sum(rew) + w_done*sum(done)", where)
-    # shapes
+
+
+def r5_shapes(ck, repo, nf):
+    """Per-sample mask broadcasting and axis discipline in the encoder loss, independent of how the roll-out is organised."""
+    q = "rl_blox.blox.embedding.model_based_encoder.model_based_encoder_loss"
+    fn = repo.func(q)
+    mi = fn._module
     se = ShapeEngine(repo)
     H = "$encoder_horizon"
     senv = {"batch.observation": ("B", H, "O"), "batch.action": ("B", H, "A"), "batch.reward": ("B", H), "batch.next_observation": ("B", H, "O"), "batch.terminated": ("B", H),
@@ -401,12 +407,8 @@ def r6_env_index(ck, repo, nf):
 
 def run(ck, repo: Repo, tier: str):
     nf = NF(repo, inline_depth=3)
-    r1_gae(ck, repo, nf)
-    r2_nstep(ck, repo, nf)
-    r3_rtg(ck, repo, nf)
-    r4_callsites(ck, repo, nf)
-    r5_encoder(ck, repo, nf)
-    r6_env_index(ck, repo, nf)
+    for group in (r1_gae, r2_nstep, r3_rtg, r4_callsites, r5_shapes, r5_encoder, r6_env_index):
+        ck.guard(group, ck, repo, nf)
     # mrq_loss uses both results of the n-step return in order
     q = "rl_blox.algorithm.mrq.mrq_loss"
     fn = repo.func(q)
